@@ -58,8 +58,12 @@ def poll_rules(prog, rep, tag):
         s = b.stmts(bi)[si]
         r = pr._of_rvalue(s["rv"])
         # value written = retries_left - 1 (checked sub produces a tuple; follow through)
-        okw = has_root(r, "field", "ReceiveFrameFut", "retries_left") and has_root(r, "binop", "SubWithOverflow") or has_root(r, "binop", "Sub")
-        okw = okw and has_root(r, "const", 1)
+        csubs = [c for c in b.calls() if (c.decl_s or "").endswith("::checked_sub") and any(x[0] == "call" and x[1].endswith("::checked_sub") and len(x) > 2 and x[2] == c.bb for x in r)]
+        if csubs:
+            # `let Some(left) = self.retries_left.checked_sub(1) else { give up }; ..; self.retries_left = left`
+            okw = all(q.const_int(c.args[1]) == 1 and has_root(pr.of_operand(c.args[0]), "field", "ReceiveFrameFut", "retries_left") for c in csubs)
+        else:
+            okw = has_root(r, "field", "ReceiveFrameFut", "retries_left") and (has_root(r, "binop", "SubWithOverflow") or has_root(r, "binop", "Sub")) and has_root(r, "const", 1)
         # on the path: timer re-armed, polled, Sendable stored, sender woken; all dominate the decrement and lie on retries_left != 0 edge
         arm = [x for x in q.field_accesses(b, "ReceiveFrameFut", "timeout_timer") if x[2] == "write"]
         # re-queue: compare-exchange Sent -> Sendable (a response that is arriving or has arrived is not overwritten)
